@@ -151,9 +151,26 @@ func editSig(c *coregen.Case) string {
 	return fmt.Sprintf("rs=%s/%s(p=%d,q=%d,%s,%s,perm=%v)/mac=%s/ids=%s", coregen.RecipSig(c.Rs), e.E, e.P, e.Q, e.What, e.Key, e.Perm, e.Mac, strings.Join(c.Ids, ","))
 }
 
-// judge: property-level verdict for one altered file and identity list.
-func judge(run *vk.Run, w *world.World, file []byte, ids []string, newFile bool, sig, what string, rp interface{}, pt []byte) {
+var stranger, _ = age.GenerateX25519Identity() // an identity that matches no stanza of any file of the run
+
+// judge: property-level verdict for one altered file and identity list. The verdict must not depend on who else is in the
+// identity list or on what the same identity objects did before, so the altered file is also presented with an identity
+// that matches nothing placed after and before the listed ones, and again after the same identity objects have opened
+// the unaltered file (prime) in this process.
+func judge(run *vk.Run, w *world.World, file []byte, ids []string, newFile bool, sig, what string, rp interface{}, pt []byte, prime []byte) {
 	idl, _ := coregen.Identities(w, ids)
+	judgeOne(run, idl, file, newFile, sig, what, rp, pt)
+	judgeOne(run, append(append([]age.Identity{}, idl...), stranger), file, newFile, sig+"+stranger", what+", followed by an identity that matches nothing", rp, pt)
+	judgeOne(run, append([]age.Identity{stranger}, idl...), file, newFile, "stranger+"+sig, what+", preceded by an identity that matches nothing", rp, pt)
+	if prime != nil {
+		if r, err := age.Decrypt(bytes.NewReader(prime), idl...); err == nil {
+			io.Copy(io.Discard, r)
+		}
+		judgeOne(run, idl, file, newFile, sig+"/after-original", what+", after the same identities opened the unaltered file", rp, pt)
+	}
+}
+
+func judgeOne(run *vk.Run, idl []age.Identity, file []byte, newFile bool, sig, what string, rp interface{}, pt []byte) {
 	var r io.Reader
 	var err error
 	var pan interface{}
@@ -250,7 +267,7 @@ func Run(tier string) {
 		out.Write(h.payload)
 		newFile := c.Res.C == "reader" && c.Res.Fk == "AK"
 		rp := map[string]interface{}{"check": "C03.edit", "rs": c.Rs, "ids": c.Ids, "edit": c.Edit, "seed": run.Seed}
-		judge(run, w, out.Bytes(), c.Ids, newFile, editSig(c), "edit "+editSig(c), rp, pt)
+		judge(run, w, out.Bytes(), c.Ids, newFile, editSig(c), "edit "+editSig(c), rp, pt, h.file)
 		run.Distinct(editSig(c))
 	})
 	for i := range cases {
@@ -347,7 +364,7 @@ func byteLevel(run *vk.Run, w *world.World, pt []byte) {
 		vk.Parallel(len(muts), 16, func(i int) {
 			m := muts[i]
 			for _, id := range l {
-				judge(run, w, m.file, []string{id}, false, sigBase+"/"+m.name, fmt.Sprintf("%s in the header of a file for [%s], decrypted with %s", m.name, strings.Join(l, ","), id), map[string]interface{}{"check": "C03.bytes", "file": vk.Ints(m.file[:min(len(m.file), hdrLen+40)]), "id": id}, pt)
+				judge(run, w, m.file, []string{id}, false, sigBase+"/"+m.name, fmt.Sprintf("%s in the header of a file for [%s], decrypted with %s", m.name, strings.Join(l, ","), id), map[string]interface{}{"check": "C03.bytes", "file": vk.Ints(m.file[:min(len(m.file), hdrLen+40)]), "id": id}, pt, h.file)
 			}
 		})
 		for _, m := range muts {
